@@ -12,25 +12,32 @@ PROPS = {
     "C01": dict(mix=[("plain", 1.0, {})], mc=["MC_base"]),
     "C02": dict(mix=[("plain", 0.5, {"features": {"retries": "always"}}),
                      ("plain", 0.3, {"features": {"retries": "always"}, "mode": "any"}), ("faults", 0.2, {})], mc=["MC_retry"]),
-    "C03": dict(mix=[("plain", 0.5, {}), ("plain", 0.5, {"mode": "any"})], mc=["MC_base"]),
+    "C03": dict(mix=[("plain", 0.35, {}), ("plain", 0.35, {"mode": "any"}),
+                     ("cmds", 0.3, {"kinds": ["reload"], "features": {"queues": "always"}, "stopreq": False})], mc=["MC_base"]),
     "C04": dict(mix=[("plain", 1.0, {"features": {"max_fcp": 5, "future": True}})], mc=["MC_runahead"]),
     "C05": dict(mix=[("plain", 0.6, {"features": {"queues": "always", "max_tasks": 5}}),
                      ("cmds", 0.4, {"features": {"queues": "always"}, "kinds": ["trigger"]})], mc=["MC_queue"]),
     "C07": dict(mix=[("plain", 0.6, {"features": {"future": True}}), ("stopcmds", 0.4, {})], mc=["MC_base"]),
-    "C09": dict(mix=[("plain", 0.5, {}), ("faults", 0.5, {})], mc=["MC_msgs"]),
+    "C09": dict(mix=[("plain", 0.4, {}), ("faults", 0.6, {"features": {"retries": "always"}})], mc=["MC_msgs"]),
     "C10": dict(mix=[("faults", 0.5, {}), ("cmds", 0.5, {"kinds": ["trigger"], "dups": True,
                                                              "features": {"retries": "always", "queues": "always"}})], mc=["MC_msgs"]),
     "C11": dict(mix=[("plain", 0.5, {"mode": "any"}), ("plain", 0.5, {})], mc=["MC_base"]),
-    "C26": dict(mix=[("plain", 0.6, {}), ("faults", 0.4, {})], mc=["MC_base"]),
+    "C26": dict(mix=[("plain", 0.3, {}), ("faults", 0.2, {}), ("cmds", 0.2, {}),
+                     ("cmds", 0.3, {"kinds": ["reload_edit", "reload_edit", "trigger"], "features": {"future": "always", "max_tasks": 5}})],
+                mc=["MC_base"]),
     "C06": dict(mix=[("hold", 1.0, {})], mc=["MC_hold"]),
     "C43": dict(mix=[("stopcmds", 0.8, {}), ("restart", 0.2, {})], mc=["MC_stop"]),
     "C45": dict(mix=[("abstrig", 1.0, {})], mc=["MC_abs"]),
     "C46": dict(mix=[("warm", 1.0, {})], mc=["MC_warm"]),
-    "C08": dict(mix=[("cmds", 1.0, {"kinds": ["trigger", "trigger", "set"]})], mc=["MC_flows"]),
+    "C08": dict(mix=[("cmds", 0.5, {"kinds": ["trigger", "trigger", "set"]}),
+                     ("cmds", 0.5, {"kinds": ["trigger", "set"], "restart": True})], mc=["MC_flows"]),
     "C27": dict(mix=[("cmds", 1.0, {"kinds": ["reload"]})], mc=["MC_reload"]),
     "C28": dict(mix=[("cmds", 1.0, {"kinds": ["trigger"]})], mc=["MC_trigger"]),
     "C29": dict(mix=[("cmds", 1.0, {"kinds": ["set"]})], mc=["MC_set"]),
     "C30": dict(mix=[("cmds", 1.0, {"kinds": ["remove", "remove", "trigger"]})], mc=["MC_remove"]),
+    "C25": dict(mix=[("plain", 0.3, {"policy": {"datastore": True}}), ("faults", 0.2, {"policy": {"datastore": True}}),
+                     ("cmds", 0.3, {"policy": {"datastore": True}}), ("hold", 0.2, {"policy": {"datastore": True}})],
+                mc=["MC_base"]),
     "C19": dict(mix=[("restart", 1.0, {})], mc=["MC_restart"]),
     "C20": dict(mix=[("crash", 1.0, {})], mc=["MC_crash"]),
     "C31": dict(mix=[("plain", 1.0, {"features": {"sequential": "always"}})], mc=["MC_seq"]),
